@@ -211,7 +211,7 @@ def derive_reads(tid, chrom, strand, exons, delta, d):
     return out
 
 
-def negative_reads(tid, chrom, strand, exons):
+def negative_reads(tid, chrom, strand, exons, delta=0):
     n = len(exons)
     out = []
     if n >= 3:
@@ -235,6 +235,28 @@ def negative_reads(tid, chrom, strand, exons):
             else:
                 ex["clip_left"] = "T" * 30
             res.append({"blocks": [tuple(b) for b in bl], "extras": ex, "kind": kind + "+tail", "T": tid, "chr": chrom})
+    # the same structural changes on reads that additionally carry ONE tolerated deviation (a terminal exon overhanging the
+    # annotated end by 25 bp, a 15-bp truncation, splice-site jitter / a whole-intron shift within delta on an annotated intron):
+    # a tolerated deviation next to a contradiction must not turn the read into a consistent one
+    annotated = set(introns_of(exons))
+    for kind, bl in out:
+        if kind.startswith("extended"):
+            continue
+        mods = [("overhang-left", 0, 0, -25), ("overhang-right", -1, 1, 25), ("trunc-left", 0, 0, 15), ("trunc-right", -1, 1, -15)]
+        for mname, bi, side, off in mods:
+            b2 = [list(b) for b in bl]
+            b2[bi][side] += off
+            if b2[bi][1] - b2[bi][0] < 30 or b2[0][0] < 1:
+                continue
+            res.append({"blocks": [tuple(b) for b in b2], "extras": {"reverse": strand == "-"}, "kind": kind + "+" + mname, "T": tid, "chr": chrom})
+        if delta > 0 and len(bl) >= 3:
+            last = (bl[-2][1] + 1, bl[-1][0] - 1)
+            if last in annotated:
+                for mname, d0, d1 in (("jitter", delta, 0), ("intron-shift", delta, delta), ("intron-shift-", -delta, -delta)):
+                    b2 = [list(b) for b in bl]
+                    b2[-2][1] += d0
+                    b2[-1][0] += d1
+                    res.append({"blocks": [tuple(b) for b in b2], "extras": {"reverse": strand == "-"}, "kind": kind + "+" + mname, "T": tid, "chr": chrom})
     return res
 
 
@@ -295,7 +317,7 @@ def case(args):
             k += 1
             reads.append(dict({"name": nm, "chr": chrom, "blocks": [list(b) for b in r["blocks"]]}, **r["extras"]))
             info[nm] = r
-        for r in negative_reads(tid, chrom, strand, ex):
+        for r in negative_reads(tid, chrom, strand, ex, delta):
             if not far_from_all(r["blocks"], iso, chrom, delta):
                 continue
             nm = "n%d" % k
@@ -332,7 +354,7 @@ def case(args):
         if nm.startswith("n"):
             nneg += 1
             if atype in CONSISTENT:
-                errs.append(("negative-consistent:" + r["kind"], "read with %s vs %s (blocks %s) reported %s to %s" %
+                errs.append(("negative-consistent:" + r["kind"].split("+")[0] + ("+tolerated" if "+" in r["kind"] and not r["kind"].endswith("+tail") else ""), "read with %s vs %s (blocks %s) reported %s to %s" %
                              (r["kind"], r["T"], r["blocks"], atype, sorted(reported)), nm))
             continue
         npos += 1
